@@ -458,12 +458,25 @@ pub fn parse_set_iterator_list(
         .collect::<Result<Vec<IterableSet>, CompilationError>>()
 }
 
+/// The child of a rule that carries the given tag. Unlike `find_first_tagged`,
+/// which also searches the descendants, this cannot pick up the same tag from a
+/// nested construct that is written before the child (a block function inside
+/// the range of a scoped block function, a range inside the start of a range).
+fn child_tagged<'a>(
+    children: &pest::iterators::Pairs<'a, Rule>,
+    tag: &str,
+) -> Option<Pair<'a, Rule>> {
+    children
+        .clone()
+        .find(|child| child.as_node_tag() == Some(tag))
+}
+
 pub fn parse_block_scoped_function(exp: &Pair<Rule>) -> Result<PreExp, CompilationError> {
     let span = InputSpan::from_pair(exp);
     let inner = exp.clone().into_inner();
-    let name = inner.find_first_tagged("name");
-    let body = inner.find_first_tagged("body");
-    let iters = inner.find_first_tagged("range");
+    let name = child_tagged(&inner, "name");
+    let body = child_tagged(&inner, "body");
+    let iters = child_tagged(&inner, "range");
     if name.is_none() || iters.is_none() || body.is_none() {
         return err_unexpected_token!("found {}, expected scoped block function", exp);
     }
@@ -714,10 +727,18 @@ pub fn parse_iterator(iterator: &Pair<Rule>) -> Result<PreExp, CompilationError>
             let first: Option<Rule> = inner.next().map(|i| i.as_rule());
             match first {
                 Some(Rule::range_iterator) => {
-                    let inner = iterator.clone().into_inner();
-                    let from = inner.find_first_tagged("from").map(parse_parameter);
-                    let to = inner.find_first_tagged("to").map(parse_parameter);
-                    let range_type = inner.find_first_tagged("range_type");
+                    let inner = match iterator.clone().into_inner().next() {
+                        Some(range) => range.into_inner(),
+                        None => {
+                            return err_unexpected_token!(
+                                "Expected range iterator but got: {}",
+                                iterator
+                            );
+                        }
+                    };
+                    let from = child_tagged(&inner, "from").map(parse_parameter);
+                    let to = child_tagged(&inner, "to").map(parse_parameter);
+                    let range_type = child_tagged(&inner, "range_type");
                     match (from, to, range_type) {
                         (Some(from), Some(to), Some(range_type)) => {
                             let to_inclusive = match range_type.as_str() {
